@@ -330,7 +330,7 @@ def check_from_random(ctx):
     if len(cons) == 1 and inner:
         c = cons[0]
         pos = fv.expand(c.args[0], c) if fv.node_of(c) is not None else c.args[0]
-        rad = c.args[1]
+        rad = fv.expand(c.args[1], c) if fv.node_of(c) is not None else c.args[1]
         okr = U(pos) == f"{inner[0].name}()" and isinstance(rad, ast.Call) and U(rad.func) == "rng.uniform" and len(rad.args) == 2
         if okr:
             lo, hi = (U(a) for a in rad.args)
@@ -532,10 +532,25 @@ def check_copy_on_insert(ctx):
     rets = [n_.stmt for n_ in fdv.return_nodes()]
     ok = False
     if len(rets) == 1 and isinstance(rets[0].value, ast.Call) and U(rets[0].value.func) == "cls" and len(rets[0].value.keywords) == 1 and rets[0].value.keywords[0].arg is None:
-        an = U(rets[0].value.keywords[0].value)
-        src = [s for s in fdv.statements() if isinstance(s, ast.Assign) and U(s.targets[0]) == an and U(s.value) == f"{fd.params[1]}._args"]
-        upd = [c for c in fdv.calls() if U(c.func) == f"{an}.update" and [U(a) for a in c.args] == ["kwargs"]]
-        ok = len(src) == 1 and len(upd) == 1
+        av = rets[0].value.keywords[0].value
+        an = U(av)
+        kwn = fd.kwarg or "kwargs"
+        srcv = f"{fd.params[1]}._args"
+        if isinstance(av, ast.Dict) and all(k is None for k in av.keys) and [U(v) for v in av.values] == [srcv, kwn]:
+            ok = True  # cls(**{**droplet._args, **kwargs})
+        else:
+            src = [s for s in fdv.statements() if isinstance(s, (ast.Assign, ast.AnnAssign)) and s.value is not None
+                   and U(s.targets[0] if isinstance(s, ast.Assign) else s.target) == an and U(s.value) == srcv]
+            upd = [c for c in fdv.calls() if U(c.func) == f"{an}.update" and [U(a) for a in c.args] == [kwn] and not c.keywords]
+            # explicit store loop: for k, v in kwargs.items(): args[k] = v
+            for lp in fdv.statements():
+                if isinstance(lp, ast.For) and U(lp.iter) == f"{kwn}.items()" and isinstance(lp.target, ast.Tuple) and len(lp.target.elts) == 2 and len(lp.body) == 1:
+                    b0 = lp.body[0]
+                    kv, vv = (U(e) for e in lp.target.elts)
+                    if isinstance(b0, ast.Assign) and U(b0.targets[0]) == f"{an}[{kv}]" and U(b0.value) == vv:
+                        upd.append(lp)
+            others = [c for c in fdv.calls() if isinstance(c.func, ast.Attribute) and U(c.func.value) == an and c.func.attr in ("pop", "clear", "popitem", "setdefault") ]
+            ok = len(src) == 1 and len(upd) == 1 and not others
     ctx.decide(ok, "OWN", fd.qualname, fd, "from_droplet re-creates the droplet through the constructor from the source's fields, overridden by the keyword arguments",
                "from_droplet does not build cls(**{fields of the source, updated by kwargs})")
 
@@ -615,18 +630,31 @@ def check_fresh_derivations(ctx):
         okadd = False
         if len(adds) == 1:
             lpq = si.enclosing(adds[0], (ast.For,))
-            if lpq is not None and U(lpq[0].iter) == mparam:
+            if lpq is not None and U(lpq[0].iter) in (mparam, f"{mparam} or ()", f"{mparam} or []"):
                 arg = U(fv.expand(adds[0].args[0], adds[0]))
                 lv = U(lpq[0].target)
                 okadd = arg in (lv, f"Emulsion({lv})")
         ctx.decide(not badm and okadd, "FRESH", q + ":members", (fi, badm[0]) if badm else fi, "every given member is added through append (copies), in order",
                    "the constructor does not add every given member through self.append (copy on insert)")
-        last = fi.node.body[-1]
-        okc = False
-        if isinstance(last, ast.If) and last.body and isinstance(last.body[0], ast.Raise) and "ValueError" in U(last.body[0]):
-            cp = compare_parts(last.test)
-            okc = cp is not None and isinstance(cp[1], ast.NotEq) and {U(cp[0]), U(cp[2])} == {"len(self.times)", f"len(self.{members})"}
-        ctx.decide(okc, "PAIR", q, (fi, last), "constructor rejects times and members of different length (ValueError) after both are set",
+        # length check: a ValueError raised exactly when the two lengths differ, on every path, after the last store
+        from ..astutil import canon_tests, canon_want, _may_precede
+
+        okc, where = False, fi.node.body[-1]
+        want_c = canon_want((f"len(self.times) != len(self.{members})", True))
+        want_c2 = canon_want((f"len(self.{members}) != len(self.times)", True))
+        for r_ in fv.statements():
+            if isinstance(r_, ast.Raise) and r_.exc is not None and "ValueError" in U(r_.exc):
+                conds = set()
+                tests = []
+                for t_, p_ in si.effective_guards(r_):
+                    conds.update(canon_tests(fv.expand(t_, r_, allow_mutated=True), p_))
+                    tests.append(t_)
+                if conds in (want_c, want_c2) and tests:
+                    tst = si.statement(tests[-1]) or r_
+                    stores_after = [s_ for s_ in tstores + mstores if s_ is not tst and _may_precede(fv, tst, s_)]
+                    okc = not stores_after and fv.post_dominates(tst, fv.body[0])
+                    where = r_
+        ctx.decide(okc, "PAIR", q, (fi, where), "constructor rejects times and members of different length (ValueError) after both are set",
                    "the constructor does not end with a length check of times against members raising ValueError")
 
 
